@@ -398,6 +398,56 @@ fn batch_check(rules: &[String], docs: &[String], evals: &mut u64) -> Result<Opt
             "c05:batch:differs-from-single".into(),
         ));
     }
+    // the same without --structured (one evaluation scope per rules file serves every data file there):
+    // with one rules file the output of the batch is the outputs of the pairs, one after the other
+    if rps.len() == 1 {
+        for (what, o) in [
+            ("-o json", VOpts::plain(Fmt::Json, vec![Show::All])),
+            ("-o yaml", VOpts::plain(Fmt::Yaml, vec![Show::Fail])),
+            ("console -p", {
+                let mut o = VOpts::plain(Fmt::Single, vec![Show::All]);
+                o.print_json = true;
+                o
+            }),
+        ] {
+            let mut want = String::new();
+            let mut worst = 0;
+            for dp in &dps {
+                *evals += 1;
+                let r = validate_files(&rps, &[dp.clone()], &[], &o, "");
+                match &r.code {
+                    Ok(c) => worst = worst.max(*c),
+                    Err(_) => return Ok(None),
+                }
+                want.push_str(&r.out);
+            }
+            *evals += 1;
+            let b = validate_files(&rps, &dps, &[], &o, "");
+            if let Some(p) = &b.panic {
+                return Err((format!("panic {}", p), format!("panic:{}", p.split(' ').next().unwrap_or(""))));
+            }
+            if b.code != Ok(worst) {
+                return Err((format!("validate {} over {} data files exits {:?} but the files on their own exit at worst {}", what, dps.len(), b.code, worst), "c05:batch:exit".into()));
+            }
+            if what == "console -p" {
+                // console detail lines may come in any order: compare as multisets of lines
+                let ms = |t: &str| {
+                    let mut m: BTreeMap<String, usize> = BTreeMap::new();
+                    for l in crate::props::c07::strip_ansi(t).lines() {
+                        *m.entry(l.to_string()).or_default() += 1;
+                    }
+                    m
+                };
+                if ms(&b.out) != ms(&want) {
+                    return Err((format!("validate {} over {} data files does not print what the files print on their own (as multisets of lines)", what, dps.len()), "c05:batch:plain-differs-from-single".into()));
+                }
+            } else if b.out != want {
+                let at = b.out.bytes().zip(want.bytes()).position(|(x, y)| x != y).unwrap_or(0);
+                let ctx = |t: &str| t.chars().skip(at.saturating_sub(80)).take(240).collect::<String>();
+                return Err((format!("validate {} over {} data files does not print the outputs of the files on their own one after the other: batch ..{:?}.. vs ..{:?}..", what, dps.len(), ctx(&b.out), ctx(&want)), "c05:batch:plain-differs-from-single".into()));
+            }
+        }
+    }
     Ok(Some(be.len()))
 }
 
